@@ -429,7 +429,8 @@ pub fn run(rep: &mut Rep) {
         run_case(rep, &mut c, case, &mut rng, k % 4);
     }
     // tree histories that include closing and reopening a persistent tree between registration and proving
-    #[cfg(any(feature = "pm", feature = "full"))]
+    // (only the default backend is persistent)
+    #[cfg(all(feature = "pm", not(feature = "full")))]
     {
         let n = if thorough { 24 } else { 3 };
         let base = std::env::temp_dir().join(format!("c01-persist-{}", std::process::id()));
